@@ -162,7 +162,7 @@ func c18(c *Ctx) {
 						})
 						return walk(be.Y, est2)
 					}
-					if est && e.Pos() <= site.Pos() && site.End() <= e.End() {
+					if est && containsNoLitOrIn(e, site) {
 						return true
 					}
 					return false
@@ -793,7 +793,7 @@ func c18(c *Ctx) {
 					arg := objOf(info, call.Args[1])
 					ast.Inspect(fn.Body(), func(nd ast.Node) bool {
 						rs, ok := nd.(*ast.RangeStmt)
-						if !ok || rs.Key == nil || rs.Body.Pos() > as.Pos() || as.End() > rs.Body.End() {
+						if !ok || rs.Key == nil || !containsNoLitOrIn(rs.Body, as) {
 							return true
 						}
 						if _, isMap := info.Types[rs.X].Type.Underlying().(*types.Map); isMap && arg != nil && objOf(info, rs.Key) == arg {
